@@ -60,6 +60,9 @@ func (c *RawSubstrateConfig) Validate() error {
 	if err := c.GeneralChainConfig.Validate(); err != nil {
 		return err
 	}
+	if c.BlockInterval < 1 {
+		return fmt.Errorf("blockInterval has to be >=1")
+	}
 
 	return nil
 }
